@@ -38,6 +38,7 @@ var excluded = map[string]string{}
 const chunkSize = 1024
 
 func run(r *core.Run) {
+	repoRoot = r.Repo
 	if e := os.Getenv("C13_EVAL"); e != "" {
 		// helper mode for replaying process-killing cases in a sacrificial process
 		o := standalone(e, 60*time.Second)
@@ -52,7 +53,7 @@ func run(r *core.Run) {
 	debug.SetMaxStack(256 << 20)
 
 	thorough := r.Thorough()
-	w := &worker{r: r, t: newTally(), stepCancels: map[string]int{}}
+	w := &worker{r: r, t: newTally(), stepCancels: map[string]int{}, sampled: map[string]bool{}}
 	if p := os.Getenv("C13_CARRY"); p != "" {
 		if t, err := loadTally(p); err == nil {
 			w.t = t
@@ -95,12 +96,16 @@ func run(r *core.Run) {
 	var optionKeys []string
 	if thorough {
 		s2, _ := fqrun.NewSession(nil)
-		if outs, err := s2.Eval(nil, "options | keys"); err == nil && len(outs) == 1 {
+		if outs, err := s2.Eval(cliState(), "_global_state(.) as $_ | options | keys"); err == nil && len(outs) == 1 {
 			optionKeys = toStrings(outs[0])
 		}
 		s2.Close()
 	}
 
+	if cliState() == nil {
+		r.Violate("harness:cli-state", "could not obtain the global state of `fq -n`: "+cliStateErr, nil)
+		return
+	}
 	fullArity := 2
 	// cap on the full product of one function (only display/2, whose pool has ~120
 	// option objects, exceeds it); above it the "mixed" shape of pool.go is used
@@ -159,7 +164,7 @@ func run(r *core.Run) {
 	}
 
 	if !r.IsChild || r.ShardIdx == 0 {
-		r.Rule("a case (function/arity, input, arguments) is non-trivial when the function accepted it and produced at least one value; " +
+		r.Rule("a case (function/arity, input, arguments) is non-trivial when the function accepted it, i.e. ran to completion without raising an error; " +
 			"distinct_nontrivial counts distinct (function/arity, value class of input and of each argument, result type sequence)")
 		r.Extra("functions_under_test", nfn)
 		r.Extra("functions_go_registered", cat.goCount)
@@ -176,6 +181,7 @@ func run(r *core.Run) {
 		if len(covering) > 0 {
 			r.Extra("covering_arrays", covering)
 		}
+		r.Assume("every case starts from the interpreter state (options stack, input file list) that the real entry point sets up for `fq -n EXPR`, obtained by running _main once")
 		r.Assume("fq runs in-process behind a virtual OS (no terminal, empty stdin, empty file system); functions reading stdin/readline see EOF")
 		r.Assume("closure (non-$) parameters receive the pool values as constant filters")
 		r.Assume("at most " + fmt.Sprint(outLimit) + " outputs of a call are consumed; each is forced with `type` only")
@@ -294,6 +300,7 @@ func reachesOptions(cat *catalog, f *fnInfo) bool {
 // interpreter inside a sacrificial child process (so that fatal errors are seen
 // too) and through the real command line entry point.
 func replay(r *core.Run, raw json.RawMessage) bool {
+	repoRoot = r.Repo
 	var c struct {
 		caseRec
 		Kind string `json:"kind"`
@@ -328,7 +335,7 @@ func replay(r *core.Run, raw json.RawMessage) bool {
 	res := fqrun.Run(fqrun.Opts{Args: []string{"-n", expr}, StdinIsTerminal: true})
 	fmt.Printf("  fq -n <expression>: exit=%d panic=%v stderr=%.300q\n", res.Exit, res.Panic, string(res.Stderr))
 	if res.Panic != nil {
-		fmt.Println("    panic site:", core.PanicSite(res.PanicStack))
+		fmt.Println("    panic site:", panicSite(res.PanicStack))
 		violated = true
 	}
 	fmt.Println("  expected: values or a caught jq error, exit 0")
